@@ -153,15 +153,28 @@ def _run_table(case, ctx):
             if isinstance(out, Err) or out != bytes([b]):
                 bad(f"encode {bytes([b])!r} -> {out!r}")
             n += 1
+            for how, src in (("stream", io.BytesIO(bytes([b, 0x41]))), ("bytearray", bytearray([b])), ("reads", None)):
+                got = lib(T.reads, bytes([b])) if src is None else lib(T, src)
+                if isinstance(got, Err) or bytes(got) != bytes([b]):
+                    bad(f"decode {b:#x} through {how} -> {got!r}")
         arr = bytes(range(256))
         got = lib(T[256], arr)
         if isinstance(got, Err) or bytes(got) != arr or lib(T[256].dumps, got) != arr:
             bad(f"char[256] over all byte values -> {got!r}")
+        for how, mk in (("stream", lambda: T[256](io.BytesIO(arr + b"zz"))), ("bytearray", lambda: T[256](bytearray(arr))), ("reads", lambda: T[256].reads(arr))):
+            got = lib(mk)
+            if isinstance(got, Err) or bytes(got) != arr:
+                bad(f"char[256] over all byte values through {how} -> {got!r}")
+        body = bytes(range(1, 256))
+        st_ = io.BytesIO(body + b"\x00tail")
+        got = lib(T[None], st_)
+        if isinstance(got, Err) or bytes(got) != body or st_.tell() != 256 or lib(T[None].dumps, got) != body + b"\x00":
+            bad(f"char[] over bytes 1..255 + terminator -> {got!r}, stream left at {st_.tell()}")
         ctx.mark_nontrivial([name, endian, "all256"])
     elif kind == "wchar":
         codec = "utf-16-le" if endian == "<" else "utf-16-be"
         step = 1 if tier == "thorough" else 37
-        for cp in list(range(0, 0xD800, step)) + list(range(0xE000, 0x10000, step)) + [0xD7FF, 0xE000, 0xFFFF, 0x20AC]:
+        for cp in list(range(0, 0xD800, step)) + list(range(0xE000, 0x10000, step)) + [0xD7FF, 0xE000, 0xFFFF, 0x20AC, 0xFEFF, 0xFFFE, 0xFEFE]:
             ch = chr(cp)
             enc = ch.encode(codec)
             got = lib(T, enc)
@@ -173,6 +186,15 @@ def _run_table(case, ctx):
             n += 1
             if enc != enc[::-1]:
                 ctx.mark_nontrivial([name, endian, cp])
+        for s4 in ("\ufeffab\ufeff", "\ufffe\ufeffxy", "ab\ufeff\ufffe"):  # byte-order marks are ordinary code units
+            enc = s4.encode(codec)
+            got = lib(T[4], io.BytesIO(enc))
+            if isinstance(got, Err) or str(got) != s4 or lib(T[4].dumps, got) != enc:
+                bad(f"wchar[4] {enc.hex()} -> {got!r}, expected {s4!r}")
+            st_ = io.BytesIO(enc + b"\x00\x00rest")
+            got = lib(T[None], st_)
+            if isinstance(got, Err) or str(got) != s4 or st_.tell() != 10 or lib(T[None].dumps, got) != enc + b"\x00\x00":
+                bad(f"wchar[] {enc.hex()}0000 -> {got!r} (stream left at {st_.tell()}), expected {s4!r}")
         s = "a€\U0001F600z"  # incl. a surrogate pair: 5 code units
         enc = s.encode(codec)
         got = lib(T[5], enc)
@@ -186,11 +208,19 @@ def _run_table(case, ctx):
             x = (x * 6364136223846793005 + 1442695040888963407) & ((1 << 256) - 1)
             mag = x >> (x % 200)
             vals.append(-mag if (info and x & 1) else mag)
+        for k_ in range(0, 81):
+            for d_ in (-2, -1, 0, 1, 2):
+                mag = (1 << k_) + d_
+                if mag >= 0:
+                    vals.append(mag)
+                    if info:
+                        vals.append(-mag)
         for v in vals:
             enc = leb_ref_encode(v, info)
-            got = lib(T, enc + b"\xff")
-            if isinstance(got, Err) or int(got) != v:
-                bad(f"decode {enc.hex()} -> {got!r}, expected {v}")
+            st_ = io.BytesIO(enc + b"\xff")
+            got = lib(T, st_)
+            if isinstance(got, Err) or int(got) != v or st_.tell() != len(enc):
+                bad(f"decode {enc.hex()} -> {got!r} (stream left at {st_.tell()}), expected {v} and {len(enc)} bytes consumed")
             out = lib(T.dumps, v)
             if isinstance(out, Err) or out != enc:
                 bad(f"encode {v} -> {out!r}, expected canonical {enc.hex()}")
@@ -228,6 +258,12 @@ STRUCTS = [
      {"k": "st", "kind": "struct", "name": None, "fields": [
          {"name": "n", "t": S("uint8"), "bits": None}, {"name": "v", "t": {"k": "a", "t": S("uint16"), "len": ["expr", "n", ["id", "n"]]}, "bits": None},
          {"name": "s", "t": {"k": "a", "t": S("wchar"), "len": ["null"]}, "bits": None}, {"name": "t", "t": S("int48"), "bits": None}]}),
+    ("C", "struct C { uint24 i[2]; wchar w[2]; double q[2]; char x[4]; char z[]; uint16 p[]; uint24 r[]; int32 tail; };",
+     {"k": "st", "kind": "struct", "name": None, "fields": [
+         {"name": "i", "t": {"k": "a", "t": S("uint24"), "len": ["fixed", 2]}, "bits": None}, {"name": "w", "t": {"k": "a", "t": S("wchar"), "len": ["fixed", 2]}, "bits": None},
+         {"name": "q", "t": {"k": "a", "t": S("double"), "len": ["fixed", 2]}, "bits": None}, {"name": "x", "t": {"k": "a", "t": S("char"), "len": ["fixed", 4]}, "bits": None},
+         {"name": "z", "t": {"k": "a", "t": S("char"), "len": ["null"]}, "bits": None}, {"name": "p", "t": {"k": "a", "t": S("uint16"), "len": ["null"]}, "bits": None},
+         {"name": "r", "t": {"k": "a", "t": S("uint24"), "len": ["null"]}, "bits": None}, {"name": "tail", "t": S("int32"), "bits": None}]}),
 ]
 SCAL = ["uint16", "int32", "uint24", "uint64", "float", "double", "wchar", "int128", "float16"]
 
@@ -238,7 +274,7 @@ def history_case(draw):
     loaded = set()
     n = draw(st.integers(3, 14))
     for _ in range(n):
-        k = draw(st.sampled_from(["flip", "flip", "load", "scalar", "scalar", "array", "struct", "struct", "struct"]))
+        k = draw(st.sampled_from(["flip", "flip", "load", "scalar", "scalar", "array", "array", "struct", "struct", "struct", "redump"]))
         if k == "flip":
             ops.append(["flip", draw(st.sampled_from(["<", ">", "!"]))])
         elif k == "load":
@@ -249,7 +285,9 @@ def history_case(draw):
         elif k == "scalar":
             ops.append(["scalar", draw(st.sampled_from(SCAL)), draw(st.binary(min_size=16, max_size=16)).hex()])
         elif k == "array":
-            ops.append(["array", draw(st.sampled_from(["uint16", "int32", "uint24", "wchar"])), draw(st.integers(1, 3)), draw(st.binary(min_size=12, max_size=12)).hex()])
+            ops.append(["array", draw(st.sampled_from(["uint16", "int32", "uint24", "wchar", "uleb128"])), draw(st.sampled_from([1, 2, 3, "null", "eof"])), draw(st.binary(min_size=12, max_size=12)).hex()])
+        elif k == "redump":
+            ops.append(["redump", draw(st.integers(0, 20))])
         elif loaded:
             i = draw(st.sampled_from(sorted(loaded)))
             ops.append(["struct", i, draw(st.integers(0, 3)), draw(st.binary(min_size=40, max_size=40)).hex()])
@@ -266,6 +304,7 @@ def _run_history(case, ctx):
     cur = case["start"]
     flips_after_compiled_use = 0
     compiled_used = False
+    kept = []  # (library object, its type node, library type, plain reference value): dumped again later, under the endianness of THAT moment
     for step, op in enumerate(case["ops"]):
         what = f"step {step} {op[:3]} under endian {cur!r} (history: {[o[:3] for o in case['ops'][: step + 1]]})"
         if op[0] == "flip":
@@ -280,14 +319,43 @@ def _run_history(case, ctx):
                 raise Violation("definition-rejected", f"{what}: {r}", r.where)
             continue
         sem = _sem(cur)
+        if op[0] == "redump":
+            if kept:
+                obj_, t_, T_, want_ = kept[op[1] % len(kept)]
+                out = lib(T_.dumps, obj_)
+                wantb = bytes(sem.encode(t_, want_))
+                if isinstance(out, Err) or out != wantb:
+                    raise Violation("history:wrong-encoding", f"{what}: an object parsed earlier dumps {out!r}, reference encoding of its value under the endianness current NOW {wantb.hex()}")
+                ctx.count("history:redump-of-an-earlier-object")
+            continue
         if op[0] == "scalar":
             t = S(op[1])
             T = getattr(cs, op[1])
             data = bytes.fromhex(op[2])
         elif op[0] == "array":
-            t = {"k": "a", "t": S(op[1]), "len": ["fixed", op[2]]}
-            T = getattr(cs, op[1])[op[2]]
+            form = op[2]
             data = bytes.fromhex(op[3])
+            if form == "null":
+                t = {"k": "a", "t": S(op[1]), "len": ["null"]}
+                T = getattr(cs, op[1])[None]
+                esz = refsem.SCALARS[op[1]][1] or 1
+                data = data[: 3 * esz] + bytes(esz) + b"\xee"
+            elif form == "eof":
+                t = {"k": "a", "t": S(op[1]), "len": ["eof"]}
+                esz = refsem.SCALARS[op[1]][1] or 1
+                hn = f"EofHolder_{op[1]}"
+                if hn not in cs.typedefs:
+                    r = lib(cs.load, f"struct {hn} {{ {op[1]} x[EOF]; }};", compiled=bool(step % 2))
+                    if isinstance(r, Err):
+                        raise Violation("definition-rejected", f"{what}: {r}", r.where)
+                T = getattr(cs, hn)
+                t = {"k": "st", "kind": "struct", "name": None, "fields": [{"name": "x", "t": t, "bits": None}]}
+                data = data[: (len(data) // esz) * esz]
+                if op[1] == "uleb128":
+                    data = bytes(b & 0x7F for b in data)
+            else:
+                t = {"k": "a", "t": S(op[1]), "len": ["fixed", form]}
+                T = getattr(cs, op[1])[form]
         else:
             name, _, t = STRUCTS[op[1]]
             T = getattr(cs, name)
@@ -296,6 +364,10 @@ def _run_history(case, ctx):
                 data[0] = op[2]
                 z = 1 + 2 * op[2] + 6
                 data[z : z + 2] = b"\x00\x00"
+            if name == "C":
+                data = bytearray(bytes(b | 1 for b in data[:30]) + b"zz\x00" + b"\x01\x02\x03\x04\x00\x00" + b"\x05\x06\x07\x00\x00\x00" + bytes(data[30:34]))
+                data[6:10] = "h\u20ac".encode("utf-16-le" if cur == "<" else "utf-16-be")
+                data[10:26] = struct.pack(("<" if cur == "<" else ">") + "dd", 1.5, -2.25)
             data = bytes(data)
             if getattr(T, "__compiled__", False):
                 compiled_used = True
@@ -316,6 +388,10 @@ def _run_history(case, ctx):
         wantb = bytes(sem.encode(t, want))
         if isinstance(out, Err) or out != wantb:
             raise Violation("history:wrong-encoding", f"{what}: dumps {out!r}, reference {wantb.hex()}")
+        if len(kept) < 8:
+            kept.append((got, t, T, want))
+        if op[0] == "array" and op[2] in ("null", "eof"):
+            ctx.count(f"history:array:{op[2]}:{op[1]}")
     ctx.count("history:cases")
     if flips_after_compiled_use:
         ctx.count("history:flip-after-compiled-struct-used")
